@@ -27,15 +27,19 @@ NONTRIVIAL = {
 # (family, quick K, thorough K)
 BATTERY = {
     "C01": [("rand", 500, 30000), ("stop", 300, 10000), ("dead", 150, 6000), ("ties", 60, 640),
-            ("tiny", 60, 324)],
+            ("tiny", 60, 324), ("edit", 100, 5000)],
     "C04": [("rand", 500, 30000), ("stop", 300, 10000), ("ties", 120, 640), ("dead", 100, 4000),
             ("tiny", 60, 324)],
-    "C02": [("stop", 700, 40000), ("dead", 250, 12000), ("ties", 60, 640), ("tiny", 60, 324)],
-    "C03": [("dead", 400, 20000), ("rand", 400, 20000), ("stop", 200, 8000), ("tiny", 80, 324)],
-    "C05": [("stop", 700, 40000), ("dead", 200, 8000), ("ties", 120, 640)],
-    "C06": [("stop", 600, 30000), ("dead", 300, 20000), ("rand", 200, 8000), ("tiny", 60, 324)],
+    "C02": [("stop", 700, 40000), ("dead", 250, 12000), ("ties", 60, 640), ("tiny", 60, 324),
+            ("bigrew", 36, 36)],
+    "C03": [("dead", 400, 20000), ("rand", 400, 20000), ("stop", 200, 8000), ("tiny", 80, 324),
+            ("nonabs", 100, 504)],
+    "C05": [("stop", 700, 40000), ("dead", 200, 8000), ("ties", 120, 640), ("nonabs", 120, 504),
+            ("bigrew", 36, 36)],
+    "C06": [("stop", 600, 30000), ("dead", 300, 20000), ("rand", 200, 8000), ("tiny", 60, 324),
+            ("edit", 120, 6000), ("nonabs", 100, 504)],
     "C14": [("stop", 800, 40000), ("dead", 250, 12000)],
-    "C10": [("hist", 250, 12000)],
+    "C10": [("hist", 250, 12000), ("edit", 120, 6000)],
     "C13": [("perm", 400, 20000)],
 }
 
@@ -65,6 +69,21 @@ def hist_script(calls):
     return out
 
 
+def edit_script(calls):
+    """calls on the description, an in-place edit by the caller, the same calls again"""
+    out = [{"op": "snap", "d": 1}]
+    for c in calls:
+        out.append({"op": "call", "d": 1, "prune": bool(c["prune"]), "mode": "solve", "obj": c["obj"]})
+        out.append({"op": "snap", "d": 1})
+    out.append({"op": "edit", "d": 2, "py": 1})
+    out.append({"op": "snap", "d": 2, "py": 1})
+    for c in calls:
+        # objects made before the edit hold the old lists' aliases: always a fresh object here
+        out.append({"op": "call", "d": 2, "py": 1, "prune": bool(c["prune"]), "mode": "solve", "obj": "new"})
+        out.append({"op": "snap", "d": 2, "py": 1})
+    return out
+
+
 def perm_script(stopping):
     mode = "solve" if stopping else "cond"
     out = []
@@ -81,13 +100,16 @@ def build_sessions(gens, exact=True):
         if d["fam"] == "hist":
             s["descs"] = [d["g"]]
             s["script"] = hist_script(d["calls"])
+        elif d["fam"] == "edit":
+            s["descs"] = [d["g"], d["g2"]]
+            s["script"] = edit_script(d["calls"])
         elif d["fam"] == "perm":
             s["descs"] = [d["g"], d["h"]]
             s["rel"] = d["rel"]
-            s["script"] = perm_script(d["stopping"])
+            s["script"] = perm_script(d.get("solvemode", d["stopping"]))
         else:
             s["descs"] = [d["g"]]
-            s["script"] = both_script(d["stopping"], len(sessions))
+            s["script"] = both_script(d.get("solvemode", d["stopping"]), len(sessions))
         sessions.append(s)
     return sessions
 
